@@ -23,6 +23,7 @@ type vcluster struct {
 	dialFate func(ip string, n int) error
 	sync     bool
 	wlog     []vnet.WriteRec
+	closeErr error // every transport's Close returns this error (models a failing TLS close-notify)
 }
 
 func newCluster(sync bool) *vcluster {
@@ -52,6 +53,7 @@ func (cl *vcluster) dialer() gocql.HostDialer {
 		}
 		client, server := vnet.Pipe(fmt.Sprintf("%s#%d", ip, cl.dials), &net.TCPAddr{IP: net.IPv4(10, 9, 9, 9), Port: 40000 + cl.dials}, n.Addr)
 		client.Log = &cl.wlog
+		client.CloseErr = cl.closeErr
 		cl.clients = append(cl.clients, client)
 		if cl.sync {
 			n.AcceptSync(server)
